@@ -34,10 +34,23 @@ def impl_master_reads(items):
     from execnet import gateway_base as gb
     from execnet.gateway_io import ProxyIO
 
-    pio = ProxyIO.__new__(ProxyIO)
-    pio.iochan = FakeChannel(items)
-    pio.iochan_file = gb.ChannelFileRead(pio.iochan)
-    first = pio.read(1)
+    # the real constructor on a stand-in for the channel that carries the proxied stream (proxy_channel IS the io channel; the
+    # control channel comes from its gateway)
+    class _Gw:
+        def newchannel(self):
+            return FakeChannel([])
+
+    io_chan = FakeChannel(items)
+    io_chan.gateway = _Gw()
+    io_chan.send = lambda x: None
+    io_chan.makefile = lambda mode="r", proxyclose=False: gb.ChannelFileRead(io_chan, proxyclose=proxyclose)
+    pio = ProxyIO(io_chan, gb.get_execmodel("thread"))
+    try:
+        first = pio.read(1)
+    except EOFError:
+        first = b""
+    except Exception as e:  # noqa
+        return b"", ["EXC-first:" + type(e).__name__]
     msgs = []
     while 1:
         try:
@@ -46,6 +59,9 @@ def impl_master_reads(items):
             break
         except struct.error:
             msgs.append("struct.error")
+            break
+        except Exception as e:  # noqa  (a reader that lets anything else out ends the master's receiver thread without recording EOF)
+            msgs.append("EXC:" + type(e).__name__)
             break
         if len(m.data) < 0:
             break
@@ -245,6 +261,13 @@ def main(tier, seed, replay=None):
                     except Exception as e:  # noqa
                         ck.count("inflight_unavailable_" + name)
                         continue
+                    if name == "socket":
+                        to = getattr(getattr(gw._io, "sock", None), "gettimeout", lambda: None)()
+                        ck.count("socket_timeout_probes")
+                        if to is not None:
+                            # a time-out left on the connection's socket: a peer that is silent for that long looks like an ended
+                            # stream to the receiver thread (and a slow sendall is cut short) -- unlike on a pipe
+                            ck.fail("socket-gateway-works-on-a-socket-with-a-timeout", {"timeout": to, "execmodel": em})
                     got = []
                     ch = gw.remote_exec("import time\ndef cb(x):\n    time.sleep(0.03)\n    channel.send(len(x))\nsub = channel.gateway.newchannel()\nsub.setcallback(cb)\nchannel.send(sub)\nsub.waitclose()")
                     ch.setcallback(got.append)
